@@ -302,6 +302,7 @@ struct Rw<'a> {
     closure_ctr: usize,
     file: String,
     const_values: &'a BTreeMap<String, u64>, // extract.json "const_values": integer constants of dependencies (N15)
+    n16: usize,
 }
 
 /// N15: value of a constant integer expression made of literals, `+`/`-`/`*`, parentheses and the constants of the table
@@ -338,6 +339,48 @@ fn lit_const_name(bytes: &[u8]) -> String {
 }
 
 impl<'a> Rw<'a> {
+    /// N16: slice patterns are not supported by Verus.  For a `let` over an array / slice of `Copy` elements the pattern
+    /// `[a, _, .., z]` is the same as indexing from the front and from the back (a non-`Copy` element type then fails to
+    /// compile: tool error, UNDECIDED).  Only patterns with `..` are rewritten (an irrefutable `let` with `..` exists for
+    /// arrays only, whose length the type fixes; a pattern without `..` also asserts the length, which indexing would not).
+    fn expand_slice_let(&mut self, s: &Stmt) -> Option<Vec<Stmt>> {
+        let Stmt::Local(l) = s else { return None };
+        let Pat::Slice(ps) = &l.pat else { return None };
+        let init = l.init.as_ref()?;
+        if init.diverge.is_some() || !l.attrs.is_empty() {
+            return None;
+        }
+        let mut rest_at = None;
+        for (i, p) in ps.elems.iter().enumerate() {
+            match p {
+                Pat::Ident(pi) if pi.by_ref.is_none() && pi.subpat.is_none() => {}
+                Pat::Wild(_) => {}
+                Pat::Rest(_) if rest_at.is_none() => rest_at = Some(i),
+                _ => return None,
+            }
+        }
+        let rest_at = rest_at?;
+        let n = ps.elems.len();
+        self.n16 += 1;
+        let tmp = format_ident!("vp_arr{}", self.n16);
+        let e = &init.expr;
+        let mut out: Vec<Stmt> = vec![parse_quote!(let #tmp = #e;)];
+        for (i, p) in ps.elems.iter().enumerate() {
+            if let Pat::Ident(pi) = p {
+                let id = &pi.ident;
+                let m = &pi.mutability;
+                if i < rest_at {
+                    out.push(parse_quote!(let #m #id = #tmp[#i];));
+                } else {
+                    let back = n - i;
+                    out.push(parse_quote!(let #m #id = #tmp[#tmp.len() - #back];));
+                }
+            }
+        }
+        self.log.push(format!("N16 let {} = .. -> indexing lets", l.pat.to_token_stream()));
+        Some(out)
+    }
+
     fn lit_path(&mut self, bytes: Vec<u8>, why: &str) -> Expr {
         let name = lit_const_name(&bytes);
         self.log.push(format!("N4 literal {:?} -> crate::code::{} ({})", String::from_utf8_lossy(&bytes), name, why));
@@ -578,6 +621,20 @@ impl<'a> VisitMut for Rw<'a> {
             }
         }
         visit_mut::visit_expr_mut(self, e);
+        // N4 (continued): a byte-string literal is an array in the source and a `&'static [u8]` constant here; `.as_slice()` on
+        // it is the identity (and `<[u8]>::as_slice` is unstable)
+        if let Expr::MethodCall(mc) = e {
+            if mc.method == "as_slice" && mc.args.is_empty() {
+                if let Expr::Path(rp) = &*mc.receiver {
+                    if rp.path.segments.last().map(|sg| sg.ident.to_string().starts_with("VP_B")).unwrap_or(false) {
+                        self.log.push("N4 <byte-string constant>.as_slice() -> the constant".to_string());
+                        let r = (*mc.receiver).clone();
+                        *e = r;
+                        return;
+                    }
+                }
+            }
+        }
         match e {
             Expr::Match(m) => {
                 if let Some(n) = self.try_match_to_if(m) {
@@ -841,7 +898,12 @@ impl<'a> VisitMut for Rw<'a> {
                 Stmt::Item(_) => true,
             };
             if keep {
-                out.push(s);
+                // N16: `let [a, b, .., y, z] = E;` (identifiers, `_`, at most one `..`) -> one indexing `let` per binding
+                if let Some(mut expanded) = self.expand_slice_let(&s) {
+                    out.append(&mut expanded);
+                } else {
+                    out.push(s);
+                }
             }
         }
         b.stmts = out;
@@ -2165,6 +2227,7 @@ fn main() {
             closure_ctr: 0,
             file: path.to_string(),
             const_values: &const_values,
+            n16: 0,
         };
         rw.visit_file_mut(&mut file);
         log.extend(rw.log);
